@@ -28,6 +28,7 @@ type exprEnv struct {
 	w      *World
 	pkg    *ssa.Package
 	vars   map[string]typedTerm
+	stepGoal   bool // the goal is the init/step obligation of a loop invariant
 	fullNested bool // keep every instantiation point at the nested level (preconditions)
 	assumeDepth int // trAssume: nesting depth of universals instantiated at goal constants
 	entryVars map[string]typedTerm // parameters at entry, for old(p) inside loop invariants
@@ -249,6 +250,17 @@ func (env *exprEnv) trGoal(x *Expr) typedTerm {
 				for _, L := range env.e.root().concatLens {
 					for k := 0; k < env.skNext && k < len(env.goalSk); k++ {
 						cands = append(cands, "(- "+env.goalSk[k]+" "+L+")", "(+ "+env.goalSk[k]+" "+L+")")
+					}
+				}
+			}
+			if env.e != nil && env.e.root().existsInv() && env.stepGoal {
+				// (only in the preservation goal of an invariant, where an iteration has just appended the element, and only
+				// for an existential that indexes a slice of the same sort: every candidate multiplies the disjuncts)
+				for _, c := range env.e.root().appendAt {
+					if i := strings.Index(c, "(len_"); i >= 0 {
+						if j := strings.Index(c[i+5:], " "); j > 0 && strings.Contains(disj[0], "(arr_"+c[i+5:i+5+j]+" ") {
+							cands = append(cands, c)
+						}
 					}
 				}
 			}
@@ -869,6 +881,18 @@ func (env *exprEnv) call(x *Expr) typedTerm {
 			}
 			f := fn.AnonFuncs[k-1]
 			return typedTerm{t: env.e.fnConst(f), typ: f.Signature}
+		case "ecosystemOf":
+			// the concrete value &pkg.Ecosystem{} (not boxed into the interface): for code that uses an ecosystem directly
+			if len(argEs) == 1 && argEs[0].op == "str" {
+				if p := env.w.byShort[argEs[0].sval]; p != nil {
+					if o := p.Pkg.Scope().Lookup("Ecosystem"); o != nil {
+						pt := types.NewPointer(o.Type())
+						ps := g.sortOf(pt)
+						return typedTerm{t: "(ptr_" + ps + " " + g.zero(o.Type()) + ")", typ: pt}
+					}
+				}
+			}
+			return env.fail("ecosystemOf(\"pkg\") expects a package name")
 		case "ecosystem":
 			// the interface value the CLI passes for an ecosystem package: &pkg.Ecosystem{} boxed
 			if len(argEs) == 1 && argEs[0].op == "str" {
